@@ -240,7 +240,10 @@ def handleUpdate (s : St) (c : Nat) (hd : Hdr) : St × Option LErr :=
     | some r =>
       if hd.rev != Core.latestRev r then (s, some .revision) else
       match Core.findByHeight r hd.h with
-      | none => (saveSigner s c hd.h q.addr, none)
+      | none =>
+        -- no state info covers the height: the header is optimistic (M-LC keeps its descriptor table in step
+        -- with the state infos; a descriptor without a state info cannot occur on a gap-free chain)
+        if (getDesc s q.rollapp hd.h).isSome then (s, some .internal) else (saveSigner s c hd.h q.addr, none)
       | some i =>
         match r.states[i - 1]? with
         | none => (s, some .internal)
@@ -291,7 +294,7 @@ def updateClient (s : St) (c : Nat) (w : Wrap) (hd : Hdr) (ibc : Bool) : St × R
       -- ante writes are kept whatever happens to the message
       match getClient s c with
       | none => (s1, .msg .notFound)
-      | some cl => if ibc then (setClient s1 (ibcApply cl hd), .ok) else (s1, .msg .ibc)
+      | some cl => if ibc && !cl.frozen then (setClient s1 (ibcApply cl hd), .ok) else (s1, .msg .ibc)      -- a frozen client is not Active
 
 inductive MKind
   | submit | submitNested | viaUpdate | viaUpdateNested | viaWrapped | viaWrappedNested
@@ -441,6 +444,8 @@ def coreOp (s : St) (o : Core.Op) (ds : List (Nat × Option Nat)) : St × Res :=
             match r.states.getLast? with
             | none => (s, .msg .internal)
             | some st =>
+              -- the descriptor table and the stored state info cover the same heights (C01: bdlen = num)
+              if st.start != m.start || st.last + 1 - st.start != ds.length then (s, .msg .internal) else
               match afterUpdate s3 m.ra m.rev st with
               | (_, some e) => (s, .msg e)
               | (s4, none) => (s4, .ok)
